@@ -22,6 +22,7 @@ type c04Inv struct {
 type c04Case struct {
 	Subs     [][]string `json:"subs"`     // external extensions e0.. and their subscriptions
 	Internal bool       `json:"internal"` // one internal extension subscribed to INVOKE, registered by the runtime process
+	Silent   bool       `json:"silent,omitempty"` // a second internal extension, registered without any subscription, parked on its next
 	Invs     []c04Inv   `json:"invs"`
 	// Prelude: a first generation of processes fails one invocation before the judged ones ("rtcrash": the runtime exits
 	// after its next; "extcrash": extension e0 exits while the runtime works), so that the judged invocations run in the
@@ -49,6 +50,9 @@ func (c *c04Case) scenario() *Scenario {
 	var rt []Step
 	if c.Internal {
 		rt = append(rt, Step{Op: "ext.register", Name: "i1", Events: []string{"INVOKE"}}, Step{Op: "ext.next", Name: "i1", Async: true, Tag: "inext-1"})
+	}
+	if c.Silent {
+		rt = append(rt, Step{Op: "ext.register", Name: "i2", Events: []string{}}, Step{Op: "ext.next", Name: "i2", Async: true, Tag: "silent"})
 	}
 	rt = append(rt, Step{Op: "rt.next", Async: true, Tag: "rtnext-1"})
 	for k, inv := range c.Invs {
@@ -191,6 +195,9 @@ func c04Check(c c04Case) (out kit.Outcome) {
 			who := e.Actor
 			if isRuntimeActor(e.Actor) {
 				who = "internal"
+				if e.Tag == "silent" {
+					who = "internal-silent"
+				}
 			}
 			recv[who] = append(recv[who], ev)
 		}
@@ -295,6 +302,13 @@ func c04Check(c c04Case) (out kit.Outcome) {
 			return out
 		}
 	}
+	if c.Silent {
+		out.Label("internal-unsubscribed")
+		if n := len(recv["internal-silent"]); n != 0 {
+			out.Violate("C04/event-unsubscribed", "the internal extension registered without subscriptions received %d INVOKE events", n)
+			return out
+		}
+	}
 	if c.Internal && len(recv["internal"]) != len(c.Invs) {
 		out.Violate("C04/event-count", "the internal extension received %d INVOKE events for %d invocations", len(recv["internal"]), len(c.Invs))
 		return out
@@ -309,6 +323,7 @@ func c04Gen(t *rapid.T) c04Case {
 		c.Subs = append(c.Subs, rapid.SampledFrom([][]string{{"INVOKE"}, {"INVOKE", "SHUTDOWN"}, {"SHUTDOWN"}, {}}).Draw(t, fmt.Sprintf("sub%d", i)))
 	}
 	c.Internal = rapid.IntRange(0, 2).Draw(t, "internal") == 0
+	c.Silent = rapid.IntRange(0, 3).Draw(t, "silent") == 0
 	pre := []string{"", "", "rtcrash"}
 	if n > 0 {
 		pre = append(pre, "extcrash")
@@ -365,6 +380,10 @@ func c04Fixed() []c04Case {
 			{Order: []string{"R.resp", "E0.next", "R.next", "I.next"}, QuietMs: 50, Trace: "Root=1-5e1b4151-000000000000000000000001;Parent=53995c3f42cd8ad8;Sampled=1"},
 			{Order: []string{"I.next", "R.resp", "R.next", "E0.next"}, QuietMs: 50}}},
 		{Invs: []c04Inv{{Order: []string{"R.resp", "R.next"}, QuietMs: 30}, {Order: []string{"R.resp", "R.next"}, QuietMs: 30}}},
+		// an internal extension without subscriptions next to a subscribed one: the first receives nothing
+		{Subs: [][]string{{"SHUTDOWN"}}, Internal: true, Silent: true, Invs: []c04Inv{
+			{Order: []string{"R.resp", "I.next", "R.next"}, QuietMs: 40}, {Order: []string{"I.next", "R.resp", "R.next"}, QuietMs: 40}}},
+		{Silent: true, Invs: []c04Inv{{Order: []string{"R.resp", "R.next"}, QuietMs: 30}, {Order: []string{"R.resp", "R.next"}, QuietMs: 30}}},
 		// the judged invocations run in the environment started after a failed one
 		{Subs: [][]string{{"INVOKE"}, {"SHUTDOWN"}}, Internal: true, Prelude: "rtcrash", Invs: []c04Inv{
 			{Order: []string{"R.resp", "R.next", "I.next", "E0.next"}, QuietMs: 50},
